@@ -40,7 +40,9 @@ ASSUMPTIONS = [
     "executed instance: Qc with Qcplus_fast / Qcminus_fast / Qc_leb_fast (proved equal to Qcplus / Qcminus / Qc_leb in Extract/Inst_hier.v)",
 ]
 RAND_MAX = 2147483647
-PROBE_LEVELS = 40
+PROBE_LEVELS = 16
+WORK_CAP = 30000000          # partial products per level above which the Galerkin clause is not evaluated (safety net, counted)
+MODEL_LINE_CAP = 4000000     # dumps larger than this (characters) are not sent to the extracted checker (counted)
 F0 = Fraction(0)
 
 # ---------------------------------------------------------------- matrices (global triple lists, dyadic values)
@@ -172,6 +174,10 @@ def gen_cases(ctx, P, count, with_seq):
             max_coarse = rng.choice([1, 2, 3, 4, 5, 8, 13, n // 4, n // 2])
         max_levels = rng.choice([25, 25, 25, -1, -1, 1, 2, 3, 4, 0])
         theta = rng.choice(["0", "1/4", "1/4", "1/4", "1/2", "1/2", "3/4", "1"])
+        if theta == "1" and solver in ("sa", "psa") and not tiny and n > 30:
+            # no strength edge at all: singleton aggregates, P = I - w D^-1 A, the hierarchy stagnates and fills in
+            # (dense n x n operators level after level); kept small so that the exact triple products stay cheap
+            n = rng.randint(8, 30); T, n, info = gen_matrix(rng, kind, n)
         if solver in ("rs", "prs"):
             coarsen, interp = rng.choice(RS_COARSEN), rng.choice(RS_INTERP)
             strength = rng.choice([0, 0, 0, 1]); psteps, pweight = 1, "4/3"
@@ -293,33 +299,53 @@ def to_rows(trip, n):
         if 0 <= i < n: rows[i][j] = rows[i].get(j, F0) + v
     return rows
 
+def int_rows(rows):
+    """rows of dyadic Fractions -> (rows of Python ints, e) with value = int / 2**e  (exact; big ints are much faster
+       than Fractions for the thousands of partial products of a level)"""
+    e = 0
+    for r in rows:
+        for v in r.values():
+            b = v.denominator.bit_length() - 1
+            if b > e: e = b
+    out = []
+    for r in rows:
+        out.append({c: v.numerator << (e - (v.denominator.bit_length() - 1)) for c, v in r.items()})
+    return out, e
+
 def exact_ptap(Arows, Prows, n, nc):
-    """E = P^T A P exactly; returns (E rows, max #partial products, max abs-sum of partial products, max col abs-sum of P)"""
+    """E = P^T A P exactly; returns (E rows: col -> int, shift s with value = int / 2**s, max #partial products,
+       max abs-sum of partial products (Fraction), max column abs-sum of P (Fraction))"""
+    Ai, ea = int_rows(Arows); Pi, ep = int_rows(Prows)
+    if sum(len(Pi[m]) for k in range(n) for m in Ai[k] if 0 <= m < n) > WORK_CAP: return None
     AP = [None] * n
     for k in range(n):
         acc = {}
-        for m, a in Arows[k].items():
+        for m, a in Ai[k].items():
             if not (0 <= m < n): continue
-            for j, p in Prows[m].items():
+            for j, p in Pi[m].items():
+                x = a * p
                 e = acc.get(j)
-                if e is None: acc[j] = [a * p, abs(a * p), 1]
-                else: e[0] += a * p; e[1] += abs(a * p); e[2] += 1
+                if e is None: acc[j] = [x, abs(x), 1]
+                else: e[0] += x; e[1] += abs(x); e[2] += 1
         AP[k] = acc
+    if sum(len(Pi[k]) * len(AP[k]) for k in range(n)) > WORK_CAP: return None
     E = {}; colsum = {}
     for k in range(n):
-        for i, p in Prows[k].items():
-            colsum[i] = colsum.get(i, F0) + abs(p)
+        for i, p in Pi[k].items():
+            colsum[i] = colsum.get(i, 0) + abs(p)
             row = E.setdefault(i, {})
+            ap = abs(p)
             for j, (v, av, cnt) in AP[k].items():
                 e = row.get(j)
-                if e is None: row[j] = [p * v, abs(p) * av, cnt]
-                else: e[0] += p * v; e[1] += abs(p) * av; e[2] += cnt
-    Nmax = 0; Tmax = F0
+                if e is None: row[j] = [p * v, ap * av, cnt]
+                else: e[0] += p * v; e[1] += ap * av; e[2] += cnt
+    Nmax = 0; Tmax = 0
     for i, row in E.items():
         for j, (v, av, cnt) in row.items():
             if cnt > Nmax: Nmax = cnt
             if av > Tmax: Tmax = av
-    return E, Nmax, Tmax, max(list(colsum.values()) + [F0])
+    s_ = ea + 2 * ep
+    return E, s_, Nmax, Fraction(Tmax, 1 << s_), Fraction(max(list(colsum.values()) + [0]), 1 << ep)
 
 def tol_of(Nmax, Tmax, Smax):
     t = Fraction(1, 10 ** 15) * (Nmax + 4) * Tmax + Fraction(2, 10 ** 15) * (1 + Smax)
@@ -332,7 +358,7 @@ def cont_cond(mc, ml, n, size):
 def evaluate(c, D):
     """-> (violations [(clause, level, text)], per-level clause bits as the checker computes them, model input line,
            notes dict).  Everything below is the property's own statement evaluated on the implementation's output."""
-    V = []; bits = []; notes = {}; c["wfP"] = {}
+    V = []; bits = []; notes = {}; c["wfP"] = {}; toolarge = False
     np_ = D.np; L = D.levels; nlev = len(L)
     mc, ml = c["max_coarse"], c["max_levels"]
     # names and position numbering per level
@@ -425,19 +451,27 @@ def evaluate(c, D):
                     dims = dims and okr and okm
                 if not wfP: V.append(("conformal", l, "level %d: entry of P outside %dx%d" % (l, n, n2)))
                 Prows = to_rows([(i, j, v) for (i, j, v, s) in tP], n)
-                E, Nmax, Tmax, Smax = exact_ptap(Arows, Prows, n, n2)
+                ep_ = exact_ptap(Arows, Prows, n, n2); skipgal = ep_ is None
+                if skipgal:
+                    notes["galerkin_skipped_too_large"] = notes.get("galerkin_skipped_too_large", 0) + 1; toolarge = True
+                    ep_ = ({}, 0, 0, F0, F0)
+                E, sh, Nmax, Tmax, Smax = ep_
                 tolx = tol_of(Nmax, Tmax, Smax); tol = Fraction(tolx)
-                A2rows = to_rows([(i, j, v) for (i, j, v, s) in mats[l + 1][0]], max(n2, 0))
+                A2rows, e2 = int_rows(to_rows([(i, j, v) for (i, j, v, s) in mats[l + 1][0]], max(n2, 0)))
+                S_ = max(sh, e2); fa = S_ - e2; fe = S_ - sh
+                tol_int = (tol.numerator << S_) // tol.denominator         # dlt/2^S <= tol  <=>  dlt <= floor(tol*2^S)
                 gal = True; worst = None
                 nrows2 = max([i + 1 for (i, j, v, s) in mats[l + 1][0]] + [n2])
                 if nrows2 != n2: gal = False            # close_rows: row counts differ
-                for i in range(n2):
+                for i in ([] if skipgal else range(n2)):
                     ra = A2rows[i]; re = E.get(i, {})
                     for j in set(ra) | set(re):
-                        dlt = abs(ra.get(j, F0) - (re[j][0] if j in re else F0))
-                        if dlt > tol:
+                        va = ra.get(j, 0) << fa; ve = (re[j][0] << fe) if j in re else 0
+                        dlt = abs(va - ve)
+                        if dlt > tol_int:
                             gal = False
-                            if worst is None or dlt > worst[0]: worst = (dlt, i, j, ra.get(j, F0), re[j][0] if j in re else F0)
+                            if worst is None or dlt > worst[0]: worst = (dlt, i, j, Fraction(va, 1 << S_), Fraction(ve, 1 << S_))
+                if worst is not None: worst = (Fraction(worst[0], 1 << S_),) + worst[1:]
                 if worst is not None:
                     V.append(("galerkin", l, "A_%d[%d,%d] = %.17g but (P^T A_%d P) = %.17g (difference %.3g > slack %.3g)" % (
                         l + 1, worst[1], worst[2], float(worst[3]), l, float(worst[4]), float(worst[0]), tolx)))
@@ -471,36 +505,58 @@ def evaluate(c, D):
                          [len(R.poffmap)] + R.poffmap
             else: model += [0]
     if ml != -1 and nlev > max(1, ml): V.append(("stop", nlev - 1, "%d levels > max_levels %d" % (nlev, ml)))
-    return V, bits, " ".join(str(x) for x in model), notes
+    mline = " ".join(str(x) for x in model)
+    if toolarge or len(mline) > MODEL_LINE_CAP:
+        notes["model_skipped_too_large"] = 1; mline = None
+    return V, bits, mline, notes
 
 # ---------------------------------------------------------------- judging
-def judge(ctx, c, res, mres):
-    sig0 = "hier:%s" % c["solver"]
+def analyse(args):
+    """pure part of the judgement (runs in a worker process): parse the dump of one case and evaluate the property"""
+    c, res = args
+    c = dict(c); r = dict(status="ok")
+    try:
+        if not res or res[0][0] == "CRASH" or not any(k == "DONE" for k, _ in res):
+            return dict(status="crash", detail="setup crashed / hung / produced no hierarchy: %s" % ((res or [])[:1],))
+        d = dict(res)
+        if "NOSTOP" in d:
+            # max_levels = -1 and coarsening stagnates: the unlimited setup would not return.  The probe hierarchy
+            # (limit PROBE_LEVELS) is evaluated instead; it violates the property iff a stagnating level has a strength edge.
+            c["max_levels"] = PROBE_LEVELS; r["nostop"] = True
+        D = parse_dump(res, c["solver"] in ("rs", "sa"))
+        if D is None or not D.levels:
+            return dict(status="crash", detail="no levels dumped")
+        V, bits, mline, notes = evaluate(c, D)
+        r.update(V=V, bits=bits, mline=mline, notes=notes, wfP=c.get("wfP", {}), max_levels=c["max_levels"])
+        r["levels"] = [dict(n=lv.ranks[0].grows, lrows=[R.lrows for R in lv.ranks], x=[R.x for R in lv.ranks],
+                            b=[R.b for R in lv.ranks], tmp=[R.tmp for R in lv.ranks]) for lv in D.levels]
+        r["coarse_n"] = D.coarse_n; r["cs"] = D.cs; r["seq"] = D.seq
+        return r
+    except Exception as e:
+        import traceback
+        return dict(status="error", detail="oracle failed on the dump: %s" % traceback.format_exc()[-600:])
+
+def record(ctx, c, r):
     ctx.evaluations += 1
     ctx.count("solver_" + c["solver"]); ctx.count("P%d" % c["P"]) if c["solver"] in ("prs", "psa") else None
     ctx.count("kind_" + c["info"])
     if c["solver"] in ("rs", "prs"): ctx.count("coarsen%d_interp%d" % (c["coarsen"], c["interp"]))
     ctx.count("strength%d" % c["strength"]); ctx.count("tap%d" % c["tap"]); ctx.count("max_levels_%d" % c["max_levels"])
     if c["nvars"] > 1: ctx.count("nvars2")
-    if not res or res[0][0] == "CRASH" or not any(k == "DONE" for k, _ in res):
-        ctx.signal("O", "hier:crash:" + c["solver"], "setup crashed / hung / produced no hierarchy: %s" % ((res or [])[:1],), case=c["line"]); return
-    d = dict(res)
-    if "NOSTOP" in d:
-        # max_levels = -1 and coarsening stagnates: the unlimited setup would not return.  The probe hierarchy
-        # (limit PROBE_LEVELS) is evaluated instead; it violates the property iff a stagnating level has a strength edge.
-        ctx.count("nostop_unlimited_levels"); c["max_levels"] = PROBE_LEVELS; c["nostop"] = True
-    D = parse_dump(res, c["solver"] in ("rs", "sa"))
-    if D is None or not D.levels:
-        ctx.signal("O", "hier:crash:" + c["solver"], "no levels dumped", case=c["line"]); return
-    c["dump"] = D
-    V, bits, mline, notes = evaluate(c, D)
-    for k, v in notes.items(): ctx.count(k, v)
-    nlev = len(D.levels)
+    if r["status"] == "crash":
+        ctx.signal("O", "hier:crash:" + c["solver"], r["detail"], case=c["line"]); return
+    if r["status"] == "error":
+        ctx.signal("K", "hier:oracle:" + c["solver"], r["detail"], case=c["line"]); return
+    if r.get("nostop"): ctx.count("nostop_unlimited_levels"); c["nostop"] = True
+    c["max_levels"] = r["max_levels"]; c["wfP"] = r["wfP"]; c["summary"] = r
+    V = r["V"]
+    for k, v in r["notes"].items(): ctx.count(k, v)
+    L = r["levels"]; nlev = len(L)
     ctx.count("levels_%d" % min(nlev, 8))
     if nlev > 1: ctx.nontrivial.add(c["line"].split(" ", 1)[1][:4000])
-    if any(any(R.lrows == 0 for R in lv.ranks) for lv in D.levels if lv.ranks[0].grows > 0): ctx.count("level_with_empty_rank")
-    if any(lv.ranks[0].grows == c["max_coarse"] for lv in D.levels): ctx.count("level_size_eq_max_coarse")
-    if D.levels[-1].ranks[0].grows == 0: ctx.count("empty_coarsest")
+    if any(any(x == 0 for x in lv["lrows"]) for lv in L if lv["n"] > 0): ctx.count("level_with_empty_rank")
+    if any(lv["n"] == c["max_coarse"] for lv in L): ctx.count("level_size_eq_max_coarse")
+    if L[-1]["n"] == 0: ctx.count("empty_coarsest")
     for (cl, l, txt) in V[:6]:
         if cl == "strict_rs_local": ctx.signal("O", "hier:strict:prs:rs_local", txt, case=c["line"])
         else: ctx.signal("O", "hier:%s:%s" % (cl, c["solver"]), txt, case=c["line"])
@@ -510,12 +566,12 @@ def judge(ctx, c, res, mres):
             ctx.notes.append("max_levels=-1 (no depth limit) and a level larger than max_coarse without any strength edge: coarsening "
                              "stagnates (%s: every point C / singleton aggregates) and the unlimited setup would never return; evaluated with the "
                              "probe limit of %d levels; not a violation of C08 (no edge, no depth limit given). case %s" % (c["solver"], PROBE_LEVELS, c["cid"]))
-    c["verdict"] = (not V); c["bits"] = bits; c["mline"] = mline
+    c["verdict"] = (not V); c["bits"] = r["bits"]; c["mline"] = r["mline"]
 
 def judge_model(ctx, c, mres):
     """K: extracted checker and setup-loop model against the implementation / the Python evaluation"""
     if c.get("mline") is None: return
-    D = c["dump"]; sig = "hier:model:" + c["solver"]
+    R_ = c["summary"]; LV = R_["levels"]; sig = "hier:model:" + c["solver"]
     if not mres:
         ctx.signal("K", sig, "extracted checker produced no result", case=c["line"]); return
     m = {}
@@ -540,7 +596,7 @@ def judge_model(ctx, c, mres):
             ctx.signal("K", sig + ":clauses", "level %d: checker clauses %s, Python %s (sizes vectors maps cont [prolong galerkin coarsening])" % (l, got, b), case=c["line"])
     mo = m.get("MODEL")
     if mo is None: return
-    nlev = len(D.levels); sizes = [lv.ranks[0].grows for lv in D.levels]
+    nlev = len(LV); sizes = [lv["n"] for lv in LV]
     if mo[0] == "NONE":
         ctx.signal("K", sig + ":loop", "setup-loop model wants another level / runs out of fuel, implementation has %d levels %s" % (nlev, sizes), case=c["line"]); return
     def sect(a, b):
@@ -558,21 +614,22 @@ def judge_model(ctx, c, mres):
     mcn = int(sect("CN", "CS")[0]); mcs = [int(x) for x in sect("CS", "CD")]; mcd = [int(x) for x in sect("CD", None)]
     if int(mo[0]) != nlev or msizes != sizes:
         ctx.signal("K", sig + ":loop", "model: %s levels %s, implementation: %d levels %s" % (mo[0], msizes, nlev, sizes), case=c["line"]); return
-    parts = [[R.lrows for R in lv.ranks] for lv in D.levels]
+    parts = [lv["lrows"] for lv in LV]
     if mparts != parts:
         ctx.signal("K", sig + ":parts", "model partitions %s, implementation %s" % (mparts, parts), case=c["line"])
-    for l, lv in enumerate(D.levels):
+    for l, lv in enumerate(LV):
         g, first = mx[l][0].split(":"); loc = [int(x) for x in ([first] if first else []) + mx[l][1:]]
-        for R, lo in zip(lv.ranks, loc):
-            if any(v[:2] != (int(g), lo) for v in (R.x, R.b, R.tmp)):
-                ctx.signal("K", sig + ":vectors", "level %d: model vectors (%s,%d), implementation %s %s %s" % (l, g, lo, R.x, R.b, R.tmp), case=c["line"]); break
+        for r, lo in enumerate(loc):
+            if r < len(lv["x"]) and any(tuple(v[r][:2]) != (int(g), lo) for v in (lv["x"], lv["b"], lv["tmp"])):
+                ctx.signal("K", sig + ":vectors", "level %d rank %d: model vectors (%s,%d), implementation %s %s %s" % (
+                    l, r, g, lo, lv["x"][r], lv["b"][r], lv["tmp"][r]), case=c["line"]); break
     if sizes[-1] > 0:
-        act = [r for r, R in enumerate(D.levels[-1].ranks) if R.lrows > 0]
-        if any(D.coarse_n[r] != mcn for r in (act if not D.seq else [0])):
-            ctx.signal("K", sig + ":coarse_n", "coarse_n: model %d, implementation %s" % (mcn, D.coarse_n), case=c["line"])
-        if D.cs is not None:
+        act = [r for r, x in enumerate(LV[-1]["lrows"]) if x > 0]
+        if any(R_["coarse_n"][r] != mcn for r in (act if not R_["seq"] else [0])):
+            ctx.signal("K", sig + ":coarse_n", "coarse_n: model %d, implementation %s" % (mcn, R_["coarse_n"]), case=c["line"])
+        if R_["cs"] is not None:
             for r in act:
-                t = [int(x) for x in D.cs[r]]
+                t = [int(x) for x in R_["cs"][r]]
                 k = t[0]; cs = t[1:1 + k]; cd = t[2 + k:]
                 if cs != mcs or cd != mcd:
                     ctx.signal("K", sig + ":coarse_sizes", "rank %d: coarse sizes/displs %s %s, model %s %s" % (r, cs, cd, mcs, mcd), case=c["line"]); break
@@ -583,7 +640,7 @@ def run(ctx):
                 "and ParRS/ParSA on 1-4 processes with default/balanced/unbalanced/1-row/empty-block partitions; all coarsen x interp "
                 "x strength, theta in {0,1/4,1/2,3/4,1}, max_coarse small, max_levels in {-1,0,1,2,3,4,25}, tap_amg in {-1,0,1,2}; "
                 "non-trivial = hierarchy with >= 2 levels; distinct = distinct case text")
-    per = ctx.scale(34, 400)
+    per = ctx.scale(34, 340)
     allcases = []
     if ctx.replay:
         plan = {}
@@ -593,27 +650,38 @@ def run(ctx):
             plan.setdefault(P, []).append(c)
     else:
         plan = {P: gen_cases(ctx, P, per + (per // 2 if P == 1 else 0), P == 1) for P in (1, 2, 3, 4)}
-    for P, cases in sorted(plan.items()):
-        for ppn in (["4"] if P < 4 else ["4", "2"]):
-            sub = cases if P < 4 else (cases[0::2] if ppn == "4" else cases[1::2])
-            if not sub: continue
-            res, crashed = fw.run_impl_lines(ctx, "drv_hier", [c["line"] for c in sub], nprocs=P, env={"PPN": ppn},
-                                             timeout=ctx.scale(240, 1500), name="c08p%d_%s" % (P, ppn))
-            for c in sub:
-                c["ppn"] = ppn
-                judge(ctx, c, res.get(c["cid"]), None)
+    import multiprocessing
+    pool = multiprocessing.get_context("fork").Pool(ctx.scale(6, 12))
+    pending = []
+    try:
+        for P, cases in sorted(plan.items()):
+            for ppn in (["4"] if P < 4 else ["4", "2"]):
+                sub = cases if P < 4 else (cases[0::2] if ppn == "4" else cases[1::2])
+                if not sub: continue
+                res, crashed = fw.run_impl_lines(ctx, "drv_hier", [c["line"] for c in sub], nprocs=P, env={"PPN": ppn},
+                                                 timeout=ctx.scale(240, 1500), name="c08p%d_%s" % (P, ppn))
+                # the exact evaluation of the dumps runs in worker processes while the next launch computes
+                pending.append((sub, pool.map_async(analyse, [(c, res.get(c["cid"])) for c in sub], chunksize=4)))
+                for c in sub: c["ppn"] = ppn
+        for sub, ar in pending:
+            for c, r in zip(sub, ar.get()):
+                record(ctx, c, r)
                 if len(ctx.samples) < 4 and c["n"] <= 12: ctx.sample(c["line"])
             allcases += sub
+    finally:
+        pool.close(); pool.join()
     ml = [c["mline"] for c in allcases if c.get("mline")]
     if ml and ctx.ocaml:
         model = run_model_parallel(ctx, ml)
         for c in allcases: judge_model(ctx, c, model.get(c["cid"]))
 
-def run_model_parallel(ctx, lines, nproc=8):
+def run_model_parallel(ctx, lines, nproc=14):
     """the extracted checker is a pure function of one case line: run chunks of the case file concurrently"""
     import subprocess
     lines = sorted(lines, key=len, reverse=True)
-    chunks = [lines[k::nproc] for k in range(nproc)]
+    chunks = [[] for _ in range(nproc)]; load = [0] * nproc
+    for ln in lines:                                   # greedy balancing, cost ~ (line length)^1.5
+        k = load.index(min(load)); chunks[k].append(ln); load[k] += len(ln) ** 1.5
     procs = []
     for k, ch in enumerate(chunks):
         if not ch: continue
